@@ -436,6 +436,12 @@ def gen_file(r, n_rec, shapes=None, fields=None, size=None):
     (lo, hi), pl = SIZES[size]
     n_s = r.randint(lo, hi)
     samples = [f"S{i + 1}" for i in range(n_s)]
+    if r.random() < 0.3:
+        # legal but unusual sample names: the labels of the fixed VCF columns, a name that is a number, names with punctuation
+        odd = ["REF", "ALT", "POS", "ID", "QUAL", "FILTER", "INFO", "FORMAT", "CHROM", "0", "12", "a.b-c", "S1:x"]
+        for i in r.sample(range(n_s), min(n_s, r.randint(1, 2))):
+            cand = [x for x in odd if x not in samples]
+            samples[i] = r.choice(cand)
     ploidy = {s: r.choice(pl) for s in samples}
     if fields is None:
         fields = {f for f in ("ACP", "AFP", "SNVDP") if r.random() < 0.5}
